@@ -161,6 +161,22 @@ CanonDec(s) ==
 SameDecimal(a, b) == Len(StripZeros(Parts(a).ed)) <= 8 /\ Len(StripZeros(Parts(b).ed)) <= 8 /\ CanonDec(a) = CanonDec(b)
 SigDigits(s) == Len(CanonDec(s).ds)
 
+\* canonical form of q * 10^-6 (q an integer)
+RECURSIVE DigitsOfNat(_)
+DigitsOfNat(n) == IF n < 10 THEN <<n>> ELSE Append(DigitsOfNat(n \div 10), n % 10)
+CanonOfMicro(q) ==
+  IF q = 0 THEN [neg |-> FALSE, ds |-> <<>>, e |-> 0]
+  ELSE LET a == IF q < 0 THEN -q ELSE q  d == DigitsOfNat(a) IN
+       [neg |-> q < 0, ds |-> StripTrailingZeros(d), e |-> Len(d) - 6]
+
+\* ASCII codes -> the classes of this module, for the given separator characters
+FromAscii(s, dec, sci) ==
+  [i \in DOMAIN s |-> LET c == s[i] IN
+     IF c \in 48..57 THEN c - 48
+     ELSE IF c = 45 THEN MINUS ELSE IF c = 43 THEN PLUS
+     ELSE IF c = dec THEN DEC ELSE IF c = sci THEN SCI
+     ELSE IF c \in {32, 9, 10, 11, 12, 13} THEN BLANK ELSE OTHERC]
+
 \* ---------------------------------------------------------------- formatting
 \* decimal rendering of an integer (what "formatted with sufficient precision"
 \* means for ints): optional '-', digits without leading zeros
@@ -202,6 +218,8 @@ ValueLemma ==
   /\ SameDecimal(<<1, DEC, 5, 0>>, <<1, 5, SCI, MINUS, 1>>) /\ SameDecimal(<<0, DEC, 0, 0, 1, 2>>, <<1, DEC, 2, SCI, MINUS, 3>>)
   /\ SameDecimal(<<1, 2, 0, 0>>, <<1, DEC, 2, SCI, PLUS, 0, 3>>) /\ SameDecimal(<<MINUS, 0>>, <<0, DEC, 0>>)
   /\ ~SameDecimal(<<1, 2>>, <<1, DEC, 2>>) /\ ~SameDecimal(<<1>>, <<MINUS, 1>>) /\ SigDigits(<<0, DEC, 0, 1, 0, 5, 0>>) = 3
+  /\ CanonOfMicro(1500000) = CanonDec(<<1, DEC, 5, 0, 0>>) /\ CanonOfMicro(-125000) = CanonDec(<<MINUS, 0, DEC, 1, 2, 5, 0, 0, 0, 0, 0, 0, 0, 0, 0>>)
+  /\ CanonOfMicro(0) = CanonDec(<<0, DEC, 0, 0>>) /\ CanonOfMicro(1000000000) = CanonDec(<<1, SCI, 3>>)
   /\ Value6(<<DEC, 5>>) = 500000
   /\ Value6(<<1, DEC>>) = 1000000
 =============================================================================
